@@ -47,6 +47,10 @@ def _anchor_probe():
     return hits
 
 
+def _probe(a):
+    return a
+
+
 def judge_case(res, exprs, k, rng, hits=None):
     """One multiset x one k through the real get_type/shrink_types and the three oracles.
     res: dict prop -> core.Res."""
@@ -106,6 +110,35 @@ def judge_case(res, exprs, k, rng, hits=None):
             if t2 != term:
                 r4.violation("order-dependent-merge", f"{exprs} k={k}: {RT.show(term)} vs {RT.show(t2)}", wit)
                 break
+    # the same through the stub builder's merge of whole traces (argument, return and yield position)
+    if len(types) > 1:
+        from monkeytype.stubs import shrink_traced_types
+        from monkeytype.tracing import CallTrace
+
+        seen_terms = set()
+        for p in [list(range(len(types))), list(reversed(range(len(types))))] + [rng.sample(range(len(types)), len(types))]:
+            traces = [CallTrace(_probe, {"a": types[i]}, types[i], types[i]) for i in p]
+            r4.count("trace_merge_judgements")
+            try:
+                at, rt_, yt = shrink_traced_types(traces, k)
+            except Exception as e:
+                r4.violation(f"trace-merge-raises:{type(e).__name__}", f"{exprs} k={k}: {e!r}", wit)
+                break
+            ts = {RT.to_rt(at["a"]), RT.to_rt(rt_), RT.to_rt(yt)}
+            if len(ts) != 1:
+                r4.violation("trace-merge-differs-by-position", f"{exprs} k={k}: " + " vs ".join(sorted(RT.show(x) for x in ts)), wit)
+                break
+            seen_terms |= ts
+        else:
+            if len(seen_terms) != 1:
+                r4.violation("order-dependent-trace-merge", f"{exprs} k={k}: " + " vs ".join(sorted(RT.show(x) for x in seen_terms)), wit)
+            else:
+                t3 = next(iter(seen_terms))
+                if not RT.has_unknown(t3):
+                    for e, v in zip(exprs, vals):
+                        if not member(v, t3):
+                            r4.violation("value-not-admitted-by-trace-merge", f"value {e} not a member of {RT.show(t3)} (k={k}, values={exprs})", wit)
+                            break
     if len(RT.td_nodes(term)) or term[0] == "union":
         r4.count("nontrivial_terms")
     # ---- C05 tightness
